@@ -27,6 +27,10 @@ def cases(tier, seed):
     cs = workload.reader_population(n, seed + 300, max_levels=3)
     for i, c in enumerate(cs):
         c["sel_seed"] = seed * 13 + i
+        if i % 4 == 2 and c["gen"].get("payload") == "random":
+            # fields that are exactly zero in whole boxes (an absent species, a fluid at rest): extrema of 0.0
+            c["zero_fine"] = True
+            c["gen"]["nlevels"] = max(2, c["gen"]["nlevels"])
     if tier == "thorough":
         for a in ("example_plt_2d", "example_plt_3d", "plt1_Y", "plt2_F", "plt_eb_3d"):
             cs.append({"asset": a, "sel_seed": seed})
@@ -114,7 +118,7 @@ def run_case(case, work, rec):
                 # verdict: a quarter of the validations runs with floating-point errors raised and warnings turned
                 # into errors (payloads without NaN / inf only: there an invalid operation is the data's own)
                 vb = rng.choice((0, 0, None, 1, 2, 3))
-                strict_fp = finite_payload and rng.random() < 0.25
+                strict_fp = finite_payload and rng.random() < (0.6 if case.get("zero_fine") else 0.25)
                 try:
                     with (strict_state() if strict_fp else contextlib.nullcontext()):
                         t = Taster(path, limit_level=limit, binary_headers=bh, binary_shape=bs,
